@@ -210,6 +210,9 @@ pub struct RtScn {
     pub optional_fields: bool,
     /// virtual ms the writer waits between messages
     pub gap_ms: u64,
+    /// the reader starts this many virtual ms late (a backlog builds up, the writer may be gone)
+    #[serde(default)]
+    pub reader_delay_ms: u64,
 }
 
 #[derive(Clone, Debug, Serialize, Deserialize, PartialEq)]
@@ -326,7 +329,24 @@ pub fn gen_roundtrip(rng: &mut Rng) -> BytesScn {
             msgs.push(MsgSpec::Cancel { id, trace, span, sampled: rng.chance(500) });
         }
     }
-    let pipe_cfg = gen_pipe(rng);
+    let mut pipe_cfg = gen_pipe(rng);
+    let mut reader_delay_ms = 0;
+    let long_backlog = rng.chance(80);
+    if long_backlog {
+        // more messages than one task poll may receive (tokio's cooperative budget is 128),
+        // all written before the reader starts
+        let n_long = *rng.pick(&[129usize, 130, 200, 300]);
+        msgs.clear();
+        for i in 0..n_long {
+            if responses {
+                msgs.push(MsgSpec::RespOk { id: i as u64, body: BodySpec::Small(i as u64) });
+            } else {
+                msgs.push(MsgSpec::Cancel { id: i as u64, trace: 9, span: 7, sampled: false });
+            }
+        }
+        reader_delay_ms = 2;
+        pipe_cfg = PipeCfg { pending_permille: 0, partial_permille: *rng.pick(&[0u32, 300]), cap: 0, max_read: 0, latency_ms: 0 };
+    }
     if pipe_cfg.max_read > 0 || pipe_cfg.cap == 1 || pipe_cfg.pending_permille >= 400 {
         // keep byte-by-byte configurations cheap: no 64 KiB bodies
         for m in msgs.iter_mut() {
@@ -347,8 +367,9 @@ pub fn gen_roundtrip(rng: &mut Rng) -> BytesScn {
         msgs,
         pipe: pipe_cfg,
         end: if rng.chance(500) { EndKind::Drop } else { EndKind::Close },
-        batch: rng.chance(400),
-        gap_ms: *rng.pick(&[0u64, 0, 1, 7]),
+        batch: rng.chance(400) || long_backlog,
+        gap_ms: if long_backlog { 0 } else { *rng.pick(&[0u64, 0, 1, 7]) },
+        reader_delay_ms,
     })
 }
 
@@ -475,11 +496,15 @@ fn optional_field_frames() -> Vec<Vec<u8>> {
     vec![frame(&serde_json::to_vec(&cancel).unwrap()), frame(&serde_json::to_vec(&req).unwrap())]
 }
 
-async fn read_all<M: Wire, S, E>(sim: Rc<Sim>, mut stream: S, sh: Rc<RefCell<RtShared>>)
+async fn read_all<M: Wire, S, E>(sim: Rc<Sim>, mut stream: S, sh: Rc<RefCell<RtShared>>, delay_ms: u64)
 where
     S: Stream<Item = Result<M, E>> + Unpin,
     E: std::fmt::Debug,
 {
+    if delay_ms > 0 {
+        tokio::time::sleep(Duration::from_millis(delay_ms)).await;
+        sim.count("probe.reader_started_late");
+    }
     loop {
         match stream.next().await {
             None => {
@@ -510,7 +535,7 @@ fn spawn_rt<M: Wire>(sim: &Rc<Sim>, scn: &RtScn, sh: &Rc<RefCell<RtShared>>) -> 
             let w = tarpc::serde_transport::new::<End, M, M, Json<M, M>>(Framed::new(a, LengthDelimitedCodec::new()), Json::default());
             let r = tarpc::serde_transport::new::<End, M, M, Json<M, M>>(Framed::new(b, LengthDelimitedCodec::new()), Json::default());
             let wt = sim.spawn("writer", write_all::<M, _>(sim.clone(), w, scn.clone(), sh.clone(), Some(raw)));
-            let rt = sim.spawn("reader", read_all::<M, _, _>(sim.clone(), r, sh.clone()));
+            let rt = sim.spawn("reader", read_all::<M, _, _>(sim.clone(), r, sh.clone(), scn.reader_delay_ms));
             (wt, rt)
         }
         Medium::SerdeBincode => {
@@ -518,19 +543,19 @@ fn spawn_rt<M: Wire>(sim: &Rc<Sim>, scn: &RtScn, sh: &Rc<RefCell<RtShared>>) -> 
             let w = tarpc::serde_transport::new::<End, M, M, Bincode<M, M>>(Framed::new(a, LengthDelimitedCodec::new()), Bincode::default());
             let r = tarpc::serde_transport::new::<End, M, M, Bincode<M, M>>(Framed::new(b, LengthDelimitedCodec::new()), Bincode::default());
             let wt = sim.spawn("writer", write_all::<M, _>(sim.clone(), w, scn.clone(), sh.clone(), None));
-            let rt = sim.spawn("reader", read_all::<M, _, _>(sim.clone(), r, sh.clone()));
+            let rt = sim.spawn("reader", read_all::<M, _, _>(sim.clone(), r, sh.clone(), scn.reader_delay_ms));
             (wt, rt)
         }
         Medium::MemUnbounded => {
             let (w, r) = tarpc::transport::channel::unbounded::<M, M>();
             let wt = sim.spawn("writer", write_all::<M, _>(sim.clone(), w, scn.clone(), sh.clone(), None));
-            let rt = sim.spawn("reader", read_all::<M, _, _>(sim.clone(), r, sh.clone()));
+            let rt = sim.spawn("reader", read_all::<M, _, _>(sim.clone(), r, sh.clone(), scn.reader_delay_ms));
             (wt, rt)
         }
         Medium::MemBounded(c) => {
             let (w, r) = tarpc::transport::channel::bounded::<M, M>(*c);
             let wt = sim.spawn("writer", write_all::<M, _>(sim.clone(), w, scn.clone(), sh.clone(), None));
-            let rt = sim.spawn("reader", read_all::<M, _, _>(sim.clone(), r, sh.clone()));
+            let rt = sim.spawn("reader", read_all::<M, _, _>(sim.clone(), r, sh.clone(), scn.reader_delay_ms));
             (wt, rt)
         }
     }
